@@ -151,6 +151,8 @@ def run(P, R, tier):
     check_score(P, R, FA + "ISVMachine.score", [["mean_supervector", "ubm.means"], ["_D"]])
     check_score(P, R, FA + "JFAMachine.score", [["mean_supervector", "ubm.means"], ["_D"], ["_V"]])
     check_estimate_x(P, R)
+    from . import C07 as _c07
+    _c07.check_precisions(P, R, only=["_compute_id_plus_us_prod_inv"])  # the posterior covariance of the probe's channel factor
     from ..engines import dimrun as _dr
     _dr.route(P, R, ["fa.fn_x"], rules=["DIM.", "EXT."], where_prefix=["factor_analysis:"])
     # estimate_ux = U @ estimate_x
